@@ -399,7 +399,7 @@ def _const_pool(rng, spec, name, chunks):
     raise ValueError(k)
 
 
-def gen_program(rng, spec, chunks_of, cols=None, wrong_type=0.03, ops=None, in_sizes=None):
+def gen_program(rng, spec, chunks_of, cols=None, wrong_type=0.03, ops=None, in_sizes=None, tilde=0.0):
     """chunks_of: name -> list of per-row-group value lists (as read back), used to aim constants"""
     names = cols or [c for c in spec["cols"] if c != "rid" or rng.random() < 0.1]
     shape = rng.choice(["flat1", "flat1", "flat", "flat", "dnf", "dnf", "dnf1"])
@@ -414,6 +414,9 @@ def gen_program(rng, spec, chunks_of, cols=None, wrong_type=0.03, ops=None, in_s
             kind = spec["cols"][name]["kind"]
             if kind in ("bool", "cat") and op in ("<", "<=", ">", ">=") and rng.random() < (0.7 if kind == "bool" else 0.95):
                 op = rng.choice(["==", "!=", "in", "not in"])      # pandas refuses to order an unordered categorical
+            if kind == "bool" and rng.random() < tilde:
+                grp.append([name, "~", None])          # rows where the boolean column is False (row-level filtering only)
+                continue
             if op in ("in", "not in"):
                 k = rng.choice(in_sizes or [0, 1, 1, 2, 3])
                 const = [_const_pool(rng, spec, name, chunks_of.get(name)) for _ in range(k)]
@@ -466,6 +469,8 @@ def sat_cond(cell, op, const):
             return any(bool(cell == c) for c in const)
         if op == "not in":
             return not any(bool(cell == c) for c in const)
+        if op == "~":
+            return not bool(cell)
     except TypeError:
         return None
     raise ValueError(op)
